@@ -25,6 +25,7 @@
 #include "SM/WakePotentialMap.hpp"
 #include "IO/HDF5File.hpp"
 #include "IO/ProgramOptions.hpp"
+#include "VerifHooks.hpp"
 
 #include <chrono>
 #include <climits>
@@ -89,6 +90,7 @@ int main(int argc, char** argv)
      * to be run at all. As config files (read in based on the command line
      * options) might be errorous, propper error handling is important here.
      */
+    VERIF_POINT("setup:handler_installed");
     ProgramOptions opts;
     try {
         if (!opts.parse(argc,argv)) {
@@ -103,6 +105,7 @@ int main(int argc, char** argv)
     auto cldev = opts.getCLDevice();
     #endif // INOVESA_USE_OPENCL
 
+    VERIF_POINT("setup:options_parsed");
     std::string ofname = opts.getOutFile();
 
     #if DEBUG != 1
@@ -124,6 +127,7 @@ int main(int argc, char** argv)
     }
     #endif
 
+    VERIF_POINT("setup:nothing_to_do_passed");
     std::unique_ptr<vfps::Display> display;
     #if INOVESA_USE_OPENGL == 1
     try {
@@ -140,6 +144,7 @@ int main(int argc, char** argv)
         display = make_display( ofname );
     }
 
+    VERIF_POINT("setup:display_made");
     oclhptr_t oclh(nullptr);
 
     #if INOVESA_USE_OPENCL == 1
@@ -160,6 +165,7 @@ int main(int argc, char** argv)
 
     // here follow a lot of settings and options
 
+    VERIF_POINT("setup:device_chosen");
     const auto derivationtype = static_cast<FokkerPlanckMap::DerivationType>
             (opts.getDerivationType());
 
@@ -246,6 +252,7 @@ int main(int argc, char** argv)
             /std::pow(f_rev,2.0)/V_eff*fs;
 
     // filling pattern, first as individual bunch currents
+    VERIF_POINT("setup:machine_parameters");
     std::vector<integral_t> filling = opts.getBunchCurrents();
 
     // number of total buckets (including in the simulation empty ones)
@@ -354,6 +361,7 @@ int main(int argc, char** argv)
 
     uint32_t laststep=std::ceil(steps*rotations);
 
+    VERIF_POINT("setup:scaling_done");
     std::string startdistfile = opts.getStartDistFile();
 
 
@@ -456,6 +464,7 @@ int main(int argc, char** argv)
      /* This first grid (grid_t1) will be initialized and
      * copied for the other ones.
      */
+    VERIF_POINT("setup:parameters_reported");
     std::shared_ptr<PhaseSpace> grid_t1;
 
 
@@ -525,16 +534,19 @@ int main(int argc, char** argv)
     }
 
     // an initial renormalization might be applied
+    VERIF_POINT("setup:grid_made");
     if (renormalize >= 0) {
         grid_t1->updateXProjection();
 
         grid_t1->normalize(); // works on XProjection
     }
 
+    VERIF_POINT("setup:initial_renormalisation");
     auto grid_t2 = std::make_shared<PhaseSpace>(*grid_t1);
     auto grid_t3 = std::make_shared<PhaseSpace>(*grid_t1);
 
     // find highest peak for display (and information in the log)
+    VERIF_POINT("setup:grids_copied");
     meshdata_t maxval = std::numeric_limits<meshdata_t>::min();
     for (unsigned int x=0; x<ps_bins; x++) {
         for (unsigned int y=0; y<ps_bins; y++) {
@@ -591,6 +603,7 @@ int main(int argc, char** argv)
 
 
     // RF map
+    VERIF_POINT("setup:before_rf");
     std::shared_ptr<DynamicRFKickMap> drfm;
     std::shared_ptr<SourceMap> rfm;
     if ( std::fpclassify(rf_phase_noise) == FP_NORMAL
@@ -649,6 +662,7 @@ int main(int argc, char** argv)
         }
     }
     { // context of information printing, not needed in the program
+    VERIF_POINT("setup:rf_made");
     sstream.str("");
     auto syncphase = std::asin(V0/V_RF)/two_pi<double>()*360;
     sstream << std::fixed << syncphase;
@@ -674,11 +688,13 @@ int main(int argc, char** argv)
         Display::printText(sstream.str());
     }
 
+    VERIF_POINT("setup:before_drift");
     auto drm =std::make_unique<DriftMap>( grid_t1,grid_t3,slip
                                         , E0,interpolationtype,interpol_clamp
                                         , oclh );
 
     // time constant for damping and diffusion
+    VERIF_POINT("setup:drift_made");
     const timeaxis_t  e1 = (t_damp > 0) ? 2.0/(fs*t_damp*steps) : 0;
 
     // SourceMap for damping and diffusion
@@ -713,6 +729,7 @@ int main(int argc, char** argv)
      * one for beam dynamics and one for CSR.
      */
 
+    VERIF_POINT("setup:fp_made");
     Display::printText("For beam dynamics computation:");
     std::shared_ptr<Impedance> wake_impedance
             = vfps::makeImpedance( (filling.size()>1)? spaced_bins : padded_bins
@@ -720,6 +737,7 @@ int main(int argc, char** argv)
                                  , fmax,R_bend,f_rev,gap,use_csr
                                  , s,xi,collimator_radius,impedance_file);
 
+    VERIF_POINT("setup:wake_impedance");
     Display::printText("For CSR computation:");
     std::shared_ptr<Impedance> rdtn_impedance
             = vfps::makeImpedance( padded_bins
@@ -728,6 +746,7 @@ int main(int argc, char** argv)
 
 
     // field for radiation (not for self-interaction)
+    VERIF_POINT("setup:rdtn_impedance");
     ElectricField rdtn_field( grid_t1,rdtn_impedance,bucketnumbers
                             , 0 // no spacing
                             , oclh
@@ -737,6 +756,7 @@ int main(int argc, char** argv)
      * Part modeling the self-interaction of the electron-bunch.              *
      **************************************************************************/
 
+    VERIF_POINT("setup:rdtn_field");
     ElectricField* wake_field = nullptr;
 
     // (generic) source map, will be executed in the main loop
@@ -762,6 +782,7 @@ int main(int argc, char** argv)
         wm = new Identity( grid_t1,grid_t2,oclh);
     }
 
+    VERIF_POINT("setup:wake_made");
     /* Load coordinates for particle tracking.
      * Particle tracking is for visualization puproses only,
      * actual beam dynamics may not be perfectly accurate.
@@ -787,6 +808,7 @@ int main(int argc, char** argv)
                           + " particles.");
     }
 
+    VERIF_POINT("setup:tracking_loaded");
     // initialze the rest of the display elements
     #if INOVESA_USE_OPENGL == 1
     if (display != nullptr) {
@@ -837,6 +859,7 @@ int main(int argc, char** argv)
     }
     #endif // INOVESA_USE_OPENGL
 
+    VERIF_POINT("setup:before_file");
     /*
      * preparation to save results
      */
@@ -846,15 +869,19 @@ int main(int argc, char** argv)
       || isOfFileType(".hdf5",ofname) ) {
         opts.save(ofname+".cfg");
         Display::printText("Saved configuiration to \""+ofname+".cfg\".");
+        VERIF_POINT("setup:config_saved");
         try {
             hdf_file = new HDF5File(ofname,grid_t1, &rdtn_field, wake_impedance,
                                     trackme.size(), t_sync,f_rev);
+            VERIF_POINT("setup:file_created");
             Display::printText("Will save results to \""+ofname+"\".");
             opts.save(hdf_file);
+            VERIF_POINT("setup:options_in_file");
             hdf_file->addParameterToGroup("/Info","CSRStrength",
                                           H5::PredType::IEEE_F64LE,&S_csr);
             hdf_file->addParameterToGroup("/Info","ShieldingParameter",
                                           H5::PredType::IEEE_F64LE,&shield);
+            VERIF_POINT("setup:file_parameters");
         } catch (H5::Exception& e) {
            #if H5_VERS_MAJOR == 1 and H5_VERS_MINOR < 10
            e.printError();
@@ -879,10 +906,12 @@ int main(int argc, char** argv)
         return EXIT_SUCCESS;
     }
 
+    VERIF_POINT("setup:outputs_ready");
 
     Display::printText("Starting the simulation.");
 
     // time between two status updates (in seconds)
+    VERIF_POINT("sim:start");
     const auto updatetime = 2.0f;
 
     /* We claim that simulation starts now (see log output above).
@@ -891,7 +920,9 @@ int main(int argc, char** argv)
 
     // 1) the integral
     grid_t1->updateXProjection();
+    VERIF_POINT("pre:xproj");
     grid_t1->integrate();
+    VERIF_POINT("pre:integrate");
     #if INOVESA_USE_OPENCL == 1
     if (oclh) {  // Synchronise here since variance uses _integral
         grid_t1->syncCLMem(OCLH::clCopyDirection::dev2cpu);
@@ -900,10 +931,13 @@ int main(int argc, char** argv)
 
     // 2) the energy spread (variance in Y direction)
     grid_t1->updateYProjection();
+    VERIF_POINT("pre:yproj");
     grid_t1->variance(1);
 
+    VERIF_POINT("pre:variance1");
     Display::printText(status_string(grid_t1,0,rotations),false);
 
+    VERIF_POINT("pre:status");
     #if INOVESA_USE_HDF5 == 1
     const auto h5save = opts.getSavePhaseSpace();
     // end of preparation to save results
@@ -913,15 +947,19 @@ int main(int argc, char** argv)
         if (wake_field != nullptr) {
             // padded bunch and wake profiles
             wake_field->wakePotential();
+            VERIF_POINT("pre:wakepotential");
             hdf_file->appendPadded(wake_field);
+            VERIF_POINT("pre:padded");
         }
         if (h5save == 0) {
             // phase space (if not saved anyways)
             hdf_file->append(*grid_t1,0,HDF5File::AppendType::PhaseSpace);
+            VERIF_POINT("pre:ps0");
         }
     }
     #endif
 
+    VERIF_POINT("pre:done");
 
 
     #if INOVESA_USE_OPENCL == 1
@@ -946,25 +984,34 @@ int main(int argc, char** argv)
      * (everything inside this loop will be run a multitude of times)
      */
     while (simulationstep<laststep && !Display::abort) {
+        VERIF_POINT("loop:head");
         if (wkm != nullptr) {
             // works on XProjection
             wkm->update();
+            VERIF_POINT("loop:wkm_updated");
         }
         if (renormalize > 0 && simulationstep%renormalize == 0) {
             // works on XProjection
             grid_t1->integrateAndNormalize();
+            VERIF_POINT("loop:renormalized");
         } else {
             // works on XProjection
             grid_t1->integrate();
+            VERIF_POINT("loop:integrated");
         }
+        VERIF_POINT("loop:before_out");
 
         if (outstep > 0 && simulationstep%outstep == 0) {
 
             // works on XProjection
             grid_t1->integrate();
+            VERIF_POINT("out:integrate");
             grid_t1->variance(0);
+            VERIF_POINT("out:variance0");
             grid_t1->updateYProjection();
+            VERIF_POINT("out:yproj");
             grid_t1->variance(1);
+            VERIF_POINT("out:variance1");
             #if INOVESA_USE_OPENCL == 1
             if (oclh) {
                 grid_t1->syncCLMem(OCLH::clCopyDirection::dev2cpu);
@@ -983,20 +1030,27 @@ int main(int argc, char** argv)
 
                 hdf_file->append(*grid_t1,
                         static_cast<double>(simulationstep)/steps, at);
+                VERIF_POINT("out:grid");
                 rdtn_field.updateCSR(fc);
+                VERIF_POINT("out:csr");
                 hdf_file->append(&rdtn_field);
+                VERIF_POINT("out:csr_appended");
                 if (wkm != nullptr) {
                     hdf_file->append(wkm);
+                    VERIF_POINT("out:wake_appended");
                 }
                 hdf_file->appendTracks(trackme);
+                VERIF_POINT("out:tracks");
 
                 if (drfm) {
                     hdf_file->appendRFKicks(drfm->getPastModulation());
+                    VERIF_POINT("out:rfkicks");
                 }
             }
             #endif // INOVESA_USE_HDF5
             #if INOVESA_USE_HDF5 == 1 || INOVESA_USE_OPENGL == 1
             outstepnr++;
+            VERIF_POINT("out:counted");
             #endif
             #if INOVESA_USE_OPENGL == 1
             if (display != nullptr) {
@@ -1030,19 +1084,30 @@ int main(int argc, char** argv)
             #endif // INOVESSA_USE_GUI
             Display::printText(status_string(grid_t1,static_cast<float>(simulationstep)/steps,
                                rotations),false,updatetime);
+            VERIF_POINT("out:status");
         }
+        VERIF_POINT("loop:after_out");
         wm->apply();
+        VERIF_POINT("step:wake");
         wm->applyToAll(trackme);
+        VERIF_POINT("step:wake_tracked");
         rfm->apply();
+        VERIF_POINT("step:rf");
         rfm->applyToAll(trackme);
+        VERIF_POINT("step:rf_tracked");
         drm->apply();
+        VERIF_POINT("step:drift");
         drm->applyToAll(trackme);
+        VERIF_POINT("step:drift_tracked");
         fpm->apply();
+        VERIF_POINT("step:fp");
         fpm->applyToAll(trackme);
 
+        VERIF_POINT("step:fp_tracked");
         // udate for next time step
         grid_t1->updateXProjection();
 
+        VERIF_POINT("step:xproj");
         #if INOVESA_USE_OPENCL == 1
         if (oclh) {
             oclh->flush();
@@ -1050,13 +1115,16 @@ int main(int argc, char** argv)
         #endif // INOVESA_USE_OPENCL
 
         simulationstep++;
+        VERIF_POINT("loop:step_counted");
     } // end of main simulation loop
 
+    VERIF_POINT("fin:loop_left");
     #if INOVESA_USE_HDF5 == 1
     // save final result
     if (hdf_file != nullptr) {
         if (wkm != nullptr) {
             wkm->update();
+            VERIF_POINT("fin:wkm_updated");
         }
         /* Without renormalization at this point
          * the last time step might behave slightly different
@@ -1065,13 +1133,18 @@ int main(int argc, char** argv)
         if (renormalize > 0 && simulationstep%renormalize == 0) {
             // works on XProjection
             grid_t1->integrateAndNormalize();
+            VERIF_POINT("fin:renormalized");
         } else {
             // works on XProjection
             grid_t1->integrate();
+            VERIF_POINT("fin:integrated");
         }
         grid_t1->variance(0);
+        VERIF_POINT("fin:variance0");
         grid_t1->updateYProjection();
+        VERIF_POINT("fin:yproj");
         grid_t1->variance(1);
+        VERIF_POINT("fin:variance1");
         #if INOVESA_USE_OPENCL == 1
         if (oclh) {
             grid_t1->syncCLMem(OCLH::clCopyDirection::dev2cpu);
@@ -1084,18 +1157,25 @@ int main(int argc, char** argv)
         hdf_file->append(*grid_t1,
                          static_cast<double>(simulationstep)/steps,
                          HDF5File::AppendType::All);
+        VERIF_POINT("fin:grid");
         rdtn_field.updateCSR(fc);
+        VERIF_POINT("fin:csr");
         hdf_file->append(&rdtn_field);
+        VERIF_POINT("fin:csr_appended");
         if (wkm != nullptr) {
             hdf_file->append(wkm);
+            VERIF_POINT("fin:wake_appended");
         }
         hdf_file->appendTracks(trackme);
+        VERIF_POINT("fin:tracks");
 
         if (drfm) {
             hdf_file->appendRFKicks(drfm->getPastModulation());
+            VERIF_POINT("fin:rfkicks");
         }
         if (wake_field != nullptr) {
             hdf_file->appendPadded(wake_field);
+            VERIF_POINT("fin:padded");
         }
     }
     #endif // INOVESA_USE_HDF5
@@ -1105,16 +1185,19 @@ int main(int argc, char** argv)
     }
     #endif
 
+    VERIF_POINT("fin:file_done");
     // Print the last status.
     Display::printText(status_string(
                            grid_t1, static_cast<float>(
                                simulationstep)/steps, rotations));
 
+    VERIF_POINT("fin:status");
     delete wake_field;
 
     delete wm;
     delete fpm;
 
+    VERIF_POINT("fin:freed");
     // Print Aborted instead of Finished if it was aborted. Also for log file.
     if(Display::abort) {
         Display::printText("Aborted.");
@@ -1122,6 +1205,7 @@ int main(int argc, char** argv)
         Display::printText("Finished.");
     }
 
+    VERIF_POINT("fin:message");
     return EXIT_SUCCESS;
 }
 
